@@ -103,7 +103,10 @@ def ctr_analysis(f, extra_sources=None, summaries=None, param_tags=None):
                 elif k == 'bin':
                     ta, tb = optags(rv['a']), optags(rv['b'])
                     op = rv['op']
-                    if op in ('BitAnd', 'Eq', 'Ne') or op in ORDER_CMP:
+                    if op == 'BitAnd':
+                        # a masked counter is a slot index: it no longer distinguishes full from empty
+                        new = {'idx:' + t[4:] for t in (ta | tb) if t.startswith('ctr:')} | {t for t in (ta | tb) if t.startswith('idx:')}
+                    elif op in ('Eq', 'Ne') or op in ORDER_CMP:
                         new = set()
                     elif op in ARITH:
                         # counters: flagged below (root only); distances stay distances
@@ -163,6 +166,10 @@ def ctr_analysis(f, extra_sources=None, summaries=None, param_tags=None):
             if rv['k'] == 'bin':
                 ta, tb = optags(rv['a']), optags(rv['b'])
                 op = rv['op']
+                ia = {t[4:] for t in ta if t.startswith('idx:')}
+                ib = {t[4:] for t in tb if t.startswith('idx:')}
+                if (op in ('Eq', 'Ne') or op in ORDER_CMP) and ia and ib and ia != ib:
+                    res.findings.append((loc, 'masked-compare', 'masked ring indices of %s and %s are compared: a full ring (distance == size) is indistinguishable from an empty one: %s' % (sorted(ia), sorted(ib), s['text'])))
                 if not (is_ctr(ta) or is_ctr(tb)):
                     continue
                 if op in ('Eq', 'Ne'):
